@@ -5,6 +5,8 @@ import TxdbusModel.Proofs.Net.Progress
 import TxdbusModel.Proofs.Net.Agree
 import TxdbusModel.Proofs.Net.Introspected
 import TxdbusModel.Proofs.Net.BytesSim
+import TxdbusModel.Proofs.Net.BytesProgress
+import TxdbusModel.Proofs.Net.GetProxy
 import TxdbusModel.Net.OldBus
 /-!
 # C11 - a call through a proxy reaches the remote method and returns what it returned
@@ -501,6 +503,162 @@ theorem bytes_nothing_stuck_in_a_receiver {α : Type} (C : WireCodec V) (Ok : Ms
   obtain ⟨msteps, hs⟩ := bytes_run_simulated C Ok hC A a0 w n first bsteps hok
   exact hs.no_complete_frame_buffered c
 
+/-- **Byte-level `quiescence_reachable`** (byte-level PROGRESS).  From every state a byte-level run reaches, the
+canonical draining schedule `drain` (Net/Bytes.lean: the bus reads everything queued on a link; a client reads everything
+queued for it, every invocation this leads to returning a Deferred; the oldest Deferred of a client fires with the result
+`fire c e` - any policy `fire`) reaches `BNet.Quiescent` after finitely many steps: nothing can get stuck on a wire or
+in a receiver's buffer.  The domain hypothesis `hok` covers the run AND what the draining schedule serialises (the bus's
+stamped copies, the replies) - no lawful codec is total, so some such hypothesis is unavoidable; being about ONE
+computable schedule it is checked by evaluation (`drain_domain_of_stopped`), as the example at the end of this file
+does.  `bytes_quiescence_reachable_in_class` restates it for any class of continuations closed under these steps. -/
+theorem bytes_quiescence_reachable {α : Type} (C : WireCodec V) (Ok : Msg V → Prop) (hC : C.Laws Ok)
+    (A : Txdbus.Proto.Auth α) (a0 : α) (w : World V) (n : Nat) (first : Nat → Nat) (bsteps : List (BStep V))
+    (fire : Nat → Exec → Result V)
+    (hok : ∀ fuel m, m ∈ (brun C A w (BNet.init n first a0)
+      (bsteps ++ drain C A w fire fuel (brun C A w (BNet.init n first a0) bsteps))).sent → Ok m) :
+    ∃ fuel, (brun C A w (BNet.init n first a0)
+      (bsteps ++ drain C A w fire fuel (brun C A w (BNet.init n first a0) bsteps))).Quiescent := by
+  have hok0 : ∀ m, m ∈ (brun C A w (BNet.init n first a0) bsteps).sent → Ok m := by
+    intro m hm
+    apply hok 0 m
+    simpa [drain] using hm
+  obtain ⟨msteps, hs⟩ := bytes_run_simulated C Ok hC A a0 w n first bsteps hok0
+  obtain ⟨fuel, hq, _⟩ := drain_reaches_quiescence hC A w fire _ _ _ hs (Nat.le_refl _)
+    (fun fuel m hm => hok fuel m (by rw [brun_append]; exact hm))
+  exact ⟨fuel, by rw [brun_append]; exact hq⟩
+
+/-- The same for any class `P` of continuation steps that contains the reads and, for every unfired Deferred, one
+firing: if every continuation of the run by steps in `P` stays in the codec's domain, one of them ends quiescent.
+(`P := fun _ => True`: the domain contains whatever any continuation serialises.) -/
+theorem bytes_quiescence_reachable_in_class {α : Type} (C : WireCodec V) (Ok : Msg V → Prop) (hC : C.Laws Ok)
+    (A : Txdbus.Proto.Auth α) (a0 : α) (w : World V) (n : Nat) (first : Nat → Nat) (bsteps : List (BStep V))
+    (P : BStep V → Prop) (fire : Nat → Exec → Result V)
+    (hP1 : ∀ c k, P (.readBus c k)) (hP2 : ∀ c k, P (.readClient c k []))
+    (hP3 : ∀ c e, P (.resolve c e.tok (fire c e)))
+    (hok : ∀ more, (∀ st, st ∈ more → P st) →
+      ∀ m, m ∈ (brun C A w (BNet.init n first a0) (bsteps ++ more)).sent → Ok m) :
+    ∃ more, (∀ st, st ∈ more → P st) ∧ (brun C A w (BNet.init n first a0) (bsteps ++ more)).Quiescent := by
+  have hin : ∀ fuel st, st ∈ drain C A w fire fuel (brun C A w (BNet.init n first a0) bsteps) → P st := by
+    intro fuel st hst
+    rcases drain_mem C A w fire fuel _ st hst with ⟨c, k, rfl⟩ | ⟨c, k, rfl⟩ | ⟨c, e, rfl⟩
+    · exact hP1 c k
+    · exact hP2 c k
+    · exact hP3 c e
+  obtain ⟨fuel, hq⟩ := bytes_quiescence_reachable C Ok hC A a0 w n first bsteps fire
+    (fun fuel m hm => hok _ (hin fuel) m hm)
+  exact ⟨_, hin fuel, hq⟩
+
+/-- **C11 at byte level, without assuming quiescence** (PARTIAL for the reasons (1), (2), (4)-(7) listed above
+`C11_bytes_any_delivery_order_partial`; (3) is closed by this theorem).  Every byte-level run - any interleaving of
+calls, reads of any sizes on any link, firings, deadlines - can be EXTENDED (by the draining schedule: reads and
+Deferred firings only) to a run that ends with nothing on any wire, nothing buffered and no unfired Deferred, and in
+that run every call issued to an attached client is `Completed`: exactly one completion, exactly one answer, the
+invocation exactly once iff accepted - read off a message-level schedule with the same client logs. -/
+theorem C11_bytes_completion_always_reachable_partial {α : Type} (C : WireCodec V) (Ok : Msg V → Prop)
+    (hC : C.Laws Ok) (A : Txdbus.Proto.Auth α) (a0 : α) (w : World V) (n : Nat) (first : Nat → Nat)
+    (bsteps : List (BStep V)) (fire : Nat → Exec → Result V)
+    (hok : ∀ fuel m, m ∈ (brun C A w (BNet.init n first a0)
+      (bsteps ++ drain C A w fire fuel (brun C A w (BNet.init n first a0) bsteps))).sent → Ok m) :
+    ∃ more, (brun C A w (BNet.init n first a0) (bsteps ++ more)).Quiescent ∧
+      ∃ msteps,
+        (run w (Net.init n first) msteps).Quiescent ∧
+        (∀ c, ((brun C A w (BNet.init n first a0) (bsteps ++ more)).cl c).issued =
+                ((run w (Net.init n first) msteps).cl c).issued ∧
+              ((brun C A w (BNet.init n first a0) (bsteps ++ more)).cl c).completions =
+                ((run w (Net.init n first) msteps).cl c).completions ∧
+              ((brun C A w (BNet.init n first a0) (bsteps ++ more)).cl c).invocations =
+                ((run w (Net.init n first) msteps).cl c).invocations ∧
+              ((brun C A w (BNet.init n first a0) (bsteps ++ more)).cl c).answers =
+                ((run w (Net.init n first) msteps).cl c).answers) ∧
+        ∀ a, a < n → ∀ r, r ∈ ((brun C A w (BNet.init n first a0) (bsteps ++ more)).cl a).issued → r.dest < n →
+          ∃ o ans, Completed w (run w (Net.init n first) msteps) a r o ans := by
+  obtain ⟨fuel, hq⟩ := bytes_quiescence_reachable C Ok hC A a0 w n first bsteps fire hok
+  exact ⟨_, hq, C11_bytes_any_delivery_order_partial C Ok hC A a0 w n first _ (hok fuel) hq⟩
+
+/-! ## 3f. obtaining the proxy: the `interfaces=` argument of `getRemoteObject` -/
+
+/-- **Introspection iff some requested NAME is unknown.**  `getRemoteObject` (Net/GetProxy.lean: the walk over the
+`interfaces` argument as written) starts an introspection exactly when no interfaces were given, or some element of
+the argument is an interface NAME that is not in the caller's `DBusInterface.knownInterfaces` - wherever in the list
+that name stands (the flag is only ever set, never reset). -/
+theorem getRemoteObject_introspects_iff_unknown_name (known : List (String × Iface)) (dest : Nat) (path : String)
+    (p : IfacesParam) :
+    (∃ req, getRemoteObjectPlan known dest path p = .introspect req) ↔
+      (p.toList? = none ∨ ∃ l n, p.toList? = some l ∧ IfaceArg.name n ∈ l ∧ assocGet known n = none) := by
+  cases hl : p.toList? with
+  | none => simp [getRemoteObjectPlan, hl]
+  | some l =>
+    rw [plan_of_list known dest path p l hl]
+    constructor
+    · intro ⟨req, h⟩
+      split at h
+      · rename_i hany
+        obtain ⟨a, ha, hn⟩ := List.any_eq_true.mp hany
+        cases a with
+        | inst i => simp [IfaceArg.resolve] at hn
+        | name n =>
+          refine Or.inr ⟨l, n, rfl, ha, ?_⟩
+          simpa [IfaceArg.resolve] using hn
+      · cases h
+    · intro h
+      rcases h with h | ⟨l', n, h1, h2, h3⟩
+      · cases h
+      · injection h1 with h1
+        subst h1
+        have : l.any (fun a => (a.resolve known).isNone) = true :=
+          List.any_eq_true.mpr ⟨_, h2, by simp [IfaceArg.resolve, h3]⟩
+        simp [this]
+
+/-- **A proxy built without introspection lists every requested interface**: each `DBusInterface` instance given, and
+for each name the definition the caller's process knows under it, in the order of the argument - nothing requested is
+missing from it. -/
+theorem getRemoteObject_built_lists_every_requested (known : List (String × Iface)) (dest : Nat) (path : String)
+    (p : IfacesParam) (px : Proxy) (h : getRemoteObjectPlan known dest path p = .built px) :
+    ∃ l, p.toList? = some l ∧ px.dest = dest ∧ px.path = path ∧
+      px.ifaces = l.filterMap (IfaceArg.resolve known) ∧
+      ∀ a, a ∈ l → ∃ i, a.resolve known = some i ∧ i ∈ px.ifaces := by
+  cases hl : p.toList? with
+  | none => simp [getRemoteObjectPlan, hl] at h
+  | some l =>
+    rw [plan_of_list known dest path p l hl] at h
+    split at h
+    · cases h
+    · rename_i hany
+      injection h with h
+      subst h
+      refine ⟨l, rfl, rfl, rfl, rfl, fun a ha => ?_⟩
+      cases hr : a.resolve known with
+      | none =>
+        exfalso
+        apply hany
+        exact List.any_eq_true.mpr ⟨a, ha, by simp [hr]⟩
+      | some i => exact ⟨i, rfl, List.mem_filterMap.mpr ⟨a, ha, hr⟩⟩
+
+/-- ... and it AGREES with the exported object (the hypothesis of the headline theorem
+`C11_call_through_agreeing_proxy`) whenever the instances given and the definitions known under the names given do. -/
+theorem getRemoteObject_built_agrees (known : List (String × Iface)) (dest : Nat) (path : String)
+    (p : IfacesParam) (px : Proxy) (h : getRemoteObjectPlan known dest path p = .built px) (o : ExpObj)
+    (hag : ∀ l, p.toList? = some l → ∀ a, a ∈ l → ∀ i, a.resolve known = some i → i.AgreesIn o) :
+    px.AgreesWith o := by
+  obtain ⟨l, hl, _, _, hi, _⟩ := getRemoteObject_built_lists_every_requested known dest path p px h
+  intro i hin
+  rw [hi] at hin
+  obtain ⟨a, ha, hr⟩ := List.mem_filterMap.mp hin
+  exact hag l hl a ha i hr
+
+/-- the three forms on the seeded example: an unknown name BEFORE a known one still means introspection -/
+example :
+    let kn : Iface := { name := "org.demo.Known", methods := [⟨"Twice", "i", "i", 1, 1⟩] }
+    let known := [("org.demo.Known", kn)]
+    (∃ req, getRemoteObjectPlan known 1 "/demo/obj" (.many [.name "org.demo.Extra", .name "org.demo.Known"]) =
+      .introspect req) ∧
+    (∃ req, getRemoteObjectPlan known 1 "/demo/obj" (.many [.name "org.demo.Known", .name "org.demo.Extra"]) =
+      .introspect req) ∧
+    (∃ px, getRemoteObjectPlan known 1 "/demo/obj" (.many [.inst exIface, .name "org.demo.Known"]) = .built px ∧
+      px.ifaces = [exIface, kn]) ∧
+    (∃ px, getRemoteObjectPlan known 1 "/demo/obj" (.one (.name "org.demo.Known")) = .built px ∧ px.ifaces = [kn]) :=
+  ⟨⟨_, rfl⟩, ⟨_, rfl⟩, ⟨_, rfl, rfl⟩, ⟨_, rfl, rfl⟩⟩
+
 /-! ## 4. what the completion is -/
 
 /-- **C11.4**  The completion of an accepted call whose proxy declares the same return signature as the
@@ -824,6 +982,49 @@ example : (∀ m, m ∈ exB2.sent → m ∈ exDomain) ∧ exB2.Quiescent ∧
   revert m
   decide
 
+/-- what the Deferreds of the example fire with: `echo` returns its argument plus one -/
+def exFire : Nat → Exec → Result Nat := fun _ e => .value (.obj (if e.serial = 1 then 8 else 10))
+
+/-- the run to be extended: two calls written, the bus has read 21 bytes (one frame and 5 bytes of the second) -/
+def exPrefix : List (BStep Nat) :=
+  [.call 0 (.viaProxy exProxy none "echo" [7]), .call 0 (.viaProxy exProxy none "echo" [9]), .readBus 0 21]
+
+def exB3 : BNet Nat Unit := brun exCodec2 exAuth exWorld (BNet.init 3 (fun _ => 1) ()) exPrefix
+
+/-- The hypothesis of `bytes_quiescence_reachable` / `C11_bytes_completion_always_reachable_partial` holds for this
+run, the codec `exCodec2` (lawful on `exDomain`: `exCodec2_laws`) and the firing policy `exFire`: the run is NOT
+quiescent (one stamped call on the wire to client 2, 11 bytes of a frame on the wire to the bus and 5 in the bus's
+buffer); the draining schedule stops after 8 steps, and everything serialised up to there is in the domain - hence
+for every fuel (`drain_domain_of_stopped`).  The extended run ends with both calls completed with what `exFire` gave. -/
+example : (∀ fuel m, m ∈ (brun exCodec2 exAuth exWorld (BNet.init 3 (fun _ => 1) ())
+        (exPrefix ++ drain exCodec2 exAuth exWorld exFire fuel exB3)).sent → m ∈ exDomain) ∧
+    ¬ exB3.Quiescent ∧
+    (drain exCodec2 exAuth exWorld exFire 100 exB3).length = 8 ∧
+    ((brun exCodec2 exAuth exWorld exB3 (drain exCodec2 exAuth exWorld exFire 100 exB3)).cl 0).completions =
+      [(1, .single 8), (2, .single 10)] := by
+  have h : (brun exCodec2 exAuth exWorld exB3 (drain exCodec2 exAuth exWorld exFire 8 exB3)).pick exFire
+        (brun exCodec2 exAuth exWorld exB3 (drain exCodec2 exAuth exWorld exFire 8 exB3)).n = none ∧
+      (brun exCodec2 exAuth exWorld exB3 (drain exCodec2 exAuth exWorld exFire 8 exB3)).sent =
+        [exC1, exC2, exC1.withSender 0, exC2.withSender 0, exR1, exR1.withSender 2, exR2, exR2.withSender 2] ∧
+      (exB3.busRx 0).buffer.length = 5 ∧
+      (drain exCodec2 exAuth exWorld exFire 100 exB3).length = 8 ∧
+      ((brun exCodec2 exAuth exWorld exB3 (drain exCodec2 exAuth exWorld exFire 100 exB3)).cl 0).completions =
+        [(1, .single 8), (2, .single 10)] := by
+    decide +kernel
+  obtain ⟨h1, h2, h3, h4, h5⟩ := h
+  refine ⟨?_, ?_, h4, h5⟩
+  · intro fuel m hm
+    rw [brun_append] at hm
+    refine drain_domain_of_stopped exCodec2 (fun m => m ∈ exDomain) exAuth exWorld exFire exB3 8 h1 ?_ fuel m hm
+    intro x hx
+    rw [h2] at hx
+    revert x
+    decide
+  · intro hq
+    have := (hq 0 (by decide +kernel)).2.2.1
+    rw [this] at h3
+    exact absurd h3 (by decide)
+
 /-- The model of the bus BEFORE the repair (Net/OldBus.lean), with a re-encoding that raises for the body
 of a `v` call (the implementation: argument `(1, 2**40)`, sent as `(ix)`, re-inferred as `ai`): the call
 of client 0 is issued to an attached client, the network becomes quiescent, and the call is neither
@@ -859,6 +1060,12 @@ end Txdbus.Net
 #print axioms Txdbus.Net.bytes_run_simulated
 #print axioms Txdbus.Net.C11_bytes_any_delivery_order_partial
 #print axioms Txdbus.Net.bytes_nothing_stuck_in_a_receiver
+#print axioms Txdbus.Net.bytes_quiescence_reachable
+#print axioms Txdbus.Net.bytes_quiescence_reachable_in_class
+#print axioms Txdbus.Net.C11_bytes_completion_always_reachable_partial
+#print axioms Txdbus.Net.getRemoteObject_introspects_iff_unknown_name
+#print axioms Txdbus.Net.getRemoteObject_built_lists_every_requested
+#print axioms Txdbus.Net.getRemoteObject_built_agrees
 #print axioms Txdbus.Net.exQuiescentA
 #print axioms Txdbus.Net.exCodec2_laws
 #print axioms Txdbus.Net.C11_returns_what_it_returned
